@@ -113,3 +113,29 @@ def enclosing_try_handlers(root, node):
             if fld == "body":
                 out.append(parent)
     return out
+
+
+def if_arms(n):
+    """(test, then-arm, else-arm) of an If with leading `not`s removed by swapping the arms, so that
+    `if not c: B else: A` and `if c: A else: B` look alike to a rule"""
+    t, a, b = n.test, n.body, n.orelse
+    while isinstance(t, ast.UnaryOp) and isinstance(t.op, ast.Not):
+        t, a, b = t.operand, b, a
+    return t, a, b
+
+
+def signed_atoms(test, pol=True):
+    """(atom, sign) for every non-boolean sub-expression of a test, through and/or/not: sign tells whether the atom being
+    TRUE pushes the test towards `pol` (used to recognise `A or B or "local" in x` as a test about 'local')"""
+    out = []
+
+    def walk(e, s):
+        if isinstance(e, ast.BoolOp):
+            for v in e.values:
+                walk(v, s)
+        elif isinstance(e, ast.UnaryOp) and isinstance(e.op, ast.Not):
+            walk(e.operand, not s)
+        else:
+            out.append((e, s))
+    walk(test, pol)
+    return out
